@@ -377,7 +377,7 @@ func (p *DPlan) Execute(primary string, slices map[int]string, choose func(step 
 	}
 	out.Tree = resp.DeferTree
 
-	ctx, cancel := context.WithTimeout(context.Background(), 5*time.Second)
+	ctx, cancel := context.WithTimeout(context.Background(), 1500*time.Millisecond)
 	defer cancel()
 	out.Rec.onEvent = func(string) {
 		co.mu.Lock()
